@@ -3,34 +3,6 @@
 From P2 Require Import Base.Prelude Exp.Json Exp.Xml Exp.Html Generated.XmlEscapes.
 Local Open Scope N_scope.
 
-Fixpoint attrs_eqb (a b : list (str * str)) : bool :=
-  match a, b with
-  | [], [] => true
-  | (k, v) :: a', (k', v') :: b' => str_eqb k k' && str_eqb v v' && attrs_eqb a' b'
-  | _, _ => false
-  end.
-
-Fixpoint node_eqb (a b : node) {struct a} : bool :=
-  match a, b with
-  | Tx s, Tx t => str_eqb s t
-  | El n x k, El n' x' k' =>
-      str_eqb n n' && attrs_eqb x x' &&
-      (fix go (l m : list node) : bool :=
-         match l, m with
-         | [], [] => true
-         | p :: l', q :: m' => node_eqb p q && go l' m'
-         | _, _ => false
-         end) k k'
-  | _, _ => false
-  end.
-
-Fixpoint forest_eqb (l m : list node) : bool :=
-  match l, m with
-  | [], [] => true
-  | p :: l', q :: m' => node_eqb p q && forest_eqb l' m'
-  | _, _ => false
-  end.
-
 Fixpoint dval_eqb (a b : dval) {struct a} : bool :=
   match a, b with
   | DS s, DS t => str_eqb s t
@@ -54,12 +26,14 @@ Fixpoint dval_eqb (a b : dval) {struct a} : bool :=
 Inductive c18_case :=
 | KXml (id : N) (v : xval) (out : list N) (go : option node)
     (* the value as the exporter saw it, the bytes of export.XML(), encoding/xml's tree of those bytes *)
-| KHtml (id : N) (m : option (N * bool * hval)) (raw : bool) (out : list N) (go : option (list node)).
+| KHtml (id : N) (m : option (N * bool * hval)) (raw : bool) (out : list N) (go : option (list node))
     (* input of the ToHtml core model if the case is inside the core (maxListSize, inlineStyle, value),
        whether caller-supplied raw HTML is present, the markup ToHtml returned, encoding/xml's forest *)
+| KHtmlErr (id : N) (m : N * bool * hval).
+    (* ToHtml returned an error (and no markup) on an input inside the core model *)
 
 Definition c18_id (c : c18_case) : N :=
-  match c with KXml id _ _ _ => id | KHtml id _ _ _ _ => id end.
+  match c with KXml id _ _ _ => id | KHtml id _ _ _ _ => id | KHtmlErr id _ => id end.
 
 (* model of the implementation = implementation: the bytes, and the specification parser against encoding/xml *)
 Definition c18_im (c : c18_case) : bool :=
@@ -78,8 +52,8 @@ Definition c18_im (c : c18_case) : bool :=
       match m with
       | Some (maxl, inln, hv) =>
           match to_html_doc xml_text_tbl xml_attr_tbl maxl inln hv with
-          | Some (o, _) => str_eqb o out
-          | None => false
+          | HOk o _ => str_eqb o out
+          | _ => false
           end
       | None => true
       end &&
@@ -87,6 +61,11 @@ Definition c18_im (c : c18_case) : bool :=
       | Some a, Some b => forest_eqb a b
       | None, None => true
       | _, _ => false
+      end
+  | KHtmlErr _ (maxl, inln, hv) =>
+      match to_html_doc xml_text_tbl xml_attr_tbl maxl inln hv with
+      | HError => true
+      | _ => false
       end
   end.
 
@@ -108,6 +87,7 @@ Definition c18_is (c : c18_case) : bool :=
       | Some f => raw || forallb (names_in html_elems html_attrs) f
       | None => false
       end
+  | KHtmlErr _ _ => true      (* whether an error was due is judged by the Go oracle (want_err) *)
   end.
 
 (* witness search used when the table obligation of Props/C18.v fails *)
